@@ -1,6 +1,6 @@
 import Drv.Json
 import Spec.Offline
-import Model.Offline.Wf
+import Model.Offline.Linear
 namespace Drv.Offline
 open Lean Model.Offline
 
@@ -117,6 +117,17 @@ def handle (op : String) (j : Json) : Option Json :=
       | some t => some (obj [("script", cpsJ t)])
       | none => some (obj [("script", Json.null)])
     | none => some (errJ "bad-op")
+  | "off.linear" =>
+    -- plan of a linear upgrade / downgrade: log lines and version operations per step
+    let revs : List Rev := (namesOf j "revs").map (fun i => ⟨i, [], []⟩)
+    let other : Option Str := match getObj j "other" with | Json.null => none | x => some (cpsOf x)
+    let steps := if getBoolD j "up" true then upSteps other revs else downSteps revs other
+    let verJ : VerOp → Json
+      | .insert v => Json.arr #[Json.str "insert", cpsJ v]
+      | .delete v => Json.arr #[Json.str "delete", cpsJ v]
+      | .update o n => Json.arr #[Json.str "update", cpsJ o, cpsJ n]
+    some (obj [("steps", Json.arr (steps.map (fun st => obj [("log", cpsJ st.comment),
+      ("ver", Json.arr (st.ver.map verJ).toArray)])).toArray)])
   | "off.run" =>
     match (getArr j "steps").mapM stepOfJson, (getArr j "setup").mapM (fun (s : Json) => match s with
         | Json.arr a => a.toList.mapM stepOfJson
